@@ -491,8 +491,12 @@ func (r *tdRunner) run(tc *tdCase) (res tdResult) {
 	}
 	if ended {
 		extra, _ := settle(base, want, 400*time.Millisecond)
+		if len(extra) > 0 {
+			// a leak never goes away, a teardown on a starved machine does
+			extra, _ = settle(base, want, 6*time.Second)
+		}
 		res.Leak = extra
-		if !up.IsClosed(400 * time.Millisecond) {
+		if !up.IsClosed(400*time.Millisecond) && !up.IsClosed(6*time.Second) {
 			res.UpOpen = true
 		}
 	}
